@@ -34,8 +34,8 @@ REACH = [
     "insights/client/config.py::InsightsConfig._update_dict",
 ]
 PLAN = {
-    "quick": {"shards": 8, "cases": 900, "timeout_s": 900, "min_evaluations": 6000,
-              "min_counters": {"loads_accepted": 1500, "loads_rejected": 1000, "option_values_compared": 90000, "offline_loads_accepted": 60}},
+    "quick": {"shards": 8, "cases": 3600, "timeout_s": 900, "min_evaluations": 24000,
+              "min_counters": {"loads_accepted": 6000, "loads_rejected": 4000, "option_values_compared": 360000, "offline_loads_accepted": 240}},
     "thorough": {"shards": 16, "cases": 25000, "timeout_s": 3300, "min_evaluations": 300000,
                  "min_counters": {"loads_accepted": 120000}},
 }
